@@ -136,6 +136,10 @@ def distinct_eps(rng, n, pattern="random"):
                 ep = tcpcap.Endpoints(base.cmac, rng.randbytes(6), base.cip, rng.randbytes(4), base.cport, base.sport, rng.randrange(1 << 32), rng.randrange(1 << 32))
             elif pattern == "same-ports-other-hosts":
                 ep = tcpcap.Endpoints(rng.randbytes(6), rng.randbytes(6), rng.randbytes(4), rng.randbytes(4), base.cport, base.sport, rng.randrange(1 << 32), rng.randrange(1 << 32))
+            elif pattern == "same-hosts-other-macs":
+                # the same two addresses seen over changing links (gateway fail-over, a re-plugged or bonded interface, a capture point between two VLANs):
+                # every connection has its own pair of MAC addresses
+                ep = tcpcap.Endpoints(rng.randbytes(6), rng.randbytes(6), base.cip, base.sip, rng.randrange(1024, 65536), base.sport, rng.randrange(1 << 32), rng.randrange(1 << 32))
             elif pattern == "same-server":
                 ep = tcpcap.Endpoints(rng.randbytes(6), base.smac, rng.randbytes(4), base.sip, rng.randrange(1024, 65536), base.sport, rng.randrange(1 << 32), rng.randrange(1 << 32))
             elif pattern == "mirrored":
@@ -168,4 +172,4 @@ def distinct_eps(rng, n, pattern="random"):
     return eps
 
 
-EP_PATTERNS = ["random", "same-client-host", "same-client-port", "same-ports-other-hosts", "v4-v6-twins", "mirrored", "small-pool", "same-server"]
+EP_PATTERNS = ["random", "same-client-host", "same-client-port", "same-ports-other-hosts", "v4-v6-twins", "mirrored", "small-pool", "same-server", "same-hosts-other-macs"]
